@@ -414,6 +414,21 @@ def vsetOfResult (impl : String) : Option VSet :=
 
 def showV (v : Version) : String := String.ofList v.render
 
+/-- maximal runs of ASCII digits of a text: (byte offset of the run, its decimal value) -/
+def digitRuns (s : List Char) : List (Nat × Nat) :=
+  let rec go (rest : List Char) (off : Nat) (cur : Option (Nat × Nat)) (acc : List (Nat × Nat)) : List (Nat × Nat) :=
+    match rest with
+    | [] => (match cur with | some r => r :: acc | none => acc).reverse
+    | c :: cs =>
+      if c.toNat ≥ 48 && c.toNat ≤ 57 then
+        let d := c.toNat - 48
+        match cur with
+        | some (o, v) => go cs (off + 1) (some (o, v * 10 + d)) acc
+        | none => go cs (off + 1) (some (off, d)) acc
+      else
+        go cs (off + c.utf8Size) none (match cur with | some r => r :: acc | none => acc)
+  go s 0 none []
+
 def firstBad (vs : List Version) (ok : Version → Bool) : Option Version := vs.find? (fun v => !ok v)
 
 def setLaw (tags : List String) (what : String) (vs : List Version) (ok : Version → Bool) :
@@ -748,7 +763,20 @@ def check (op : String) (args : List String) (impl : String) : List (String × S
               | some (l, c) => if loc == s!"{l}:{c}" then [] else [("C17", s!"location {loc}, expected {l}:{c}")]
               | none => if loc == "panic" then [("C06", "location() panicked")] else [])
           | none => [("C17", "offset not a number")]) ++
-        (if utf8Length s > 256 && kind != "MaxLength" then [("C17", s!"over-long input reported as {kind}")] else [])
+        (if utf8Length s > 256 && kind != "MaxLength" then [("C17", s!"over-long input reported as {kind}")] else []) ++
+        -- the numeric kinds are reported only for a component that really is out of range, at its position
+        (let runs := digitRuns s
+         if kind.startsWith "ParseInt?" then
+           [("C17", s!"{kind} at {off}: ParseIntError is reserved for a component overflowing u64")]
+         else if kind == "ParseInt" then
+           (if runs.any (fun r => r.2 ≥ 18446744073709551616 && some r.1 == off.toNat?) then []
+            else [("C17", s!"ParseIntError at {off} although no digit run starting there overflows u64")])
+         else if kind.startsWith "MaxInt:" then
+           (match ((kind.drop 7).toString).toNat? with
+            | some n => if n > 900719925474099 && runs.any (fun r => r.2 == n && some r.1 == off.toNat?) then []
+                        else [("C17", s!"MaxIntError({n}) at {off} although no component of that value starts there")]
+            | none => [("C17", s!"MaxIntError without a value: {kind}")])
+         else [])
       | _ => [("C05", s!"unexpected answer `{impl}`")]
     | none => []
   | "rparse", [t] =>
